@@ -247,3 +247,133 @@ class Phases:
         while self.i + 1 < len(self.plan) and self.plan[self.i + 1][0] <= cyc:
             self.i += 1
         return self.plan[self.i][1], self.plan[self.i][2]
+
+
+# ---------------------------------------------------------------------------------------------------
+# Data layouts described in the (JSON) configuration.  A layout spec is a list of [name, shape]; a shape is
+#     int                    unsigned(int)
+#     ["s", w]               signed(w)
+#     ["a", shape, n]        ArrayLayout(shape, n)
+#     [[name, shape], ...]   nested struct
+# (the old form [[name, width], ...] is a special case, so old replay files still load).
+
+def _is_struct_spec(shape):
+    return isinstance(shape, (list, tuple)) and all(isinstance(f, (list, tuple)) for f in shape)
+
+
+def shape_from_spec(shape, struct_objects=False):
+    """Amaranth shape of a shape spec.  Nested structs stay lists (the LayoutList form the library documents)
+    unless struct_objects is set, then they become data.StructLayout objects."""
+    if isinstance(shape, int):
+        return shape
+    if _is_struct_spec(shape):
+        fields = [(n, shape_from_spec(s, struct_objects)) for n, s in shape]
+        if struct_objects:
+            return data.StructLayout({n: _as_shape(s) for n, s in fields})
+        return fields
+    if shape[0] == "s":
+        return signed(shape[1])
+    if shape[0] == "a":
+        return data.ArrayLayout(_as_shape(shape_from_spec(shape[1], struct_objects)), shape[2])
+    raise ValueError(f"bad shape spec {shape!r}")
+
+
+def _as_shape(s):
+    if isinstance(s, list):  # LayoutList -> StructLayout (what from_method_layout does)
+        return data.StructLayout({n: _as_shape(v) for n, v in s})
+    return s
+
+
+def layout_from_spec(spec, struct_objects=False):
+    """Method layout (list of (name, shape) pairs, or a StructLayout object) of a layout spec."""
+    if struct_objects:
+        return shape_from_spec(spec, True)
+    return [(n, shape_from_spec(s)) for n, s in spec]
+
+
+def spec_leaves(shape, prefix=""):
+    """[(path, width, signed)] of the scalar leaves of a shape spec, in the order (and with the paths) `leaves`
+    gives for a View of that shape.  A scalar shape at the top has path "" (prefix alone)."""
+    if isinstance(shape, int):
+        return [(prefix, shape, False)]
+    if _is_struct_spec(shape):
+        out = []
+        for n, s in shape:
+            out += spec_leaves(s, f"{prefix}.{n}" if prefix else n)
+        return out
+    if shape[0] == "s":
+        return [(prefix, shape[1], True)]
+    if shape[0] == "a":
+        out = []
+        for i in range(shape[2]):
+            out += spec_leaves(shape[1], f"{prefix}.{i}" if prefix else str(i))
+        return out
+    raise ValueError(f"bad shape spec {shape!r}")
+
+
+def to_leaf(u, w, sgn):
+    """The integer to drive / expect on a leaf of width w for the w-bit pattern u."""
+    u &= (1 << w) - 1
+    if sgn and w and u >> (w - 1):
+        u -= 1 << w
+    return u
+
+
+def spread(counter, mul, w, sgn=False):
+    """Unique value for a unique counter (< 2**w), spread over all w bits: multiplication by an odd constant is
+    a bijection modulo 2**w."""
+    return to_leaf(counter * (mul | 1), w, sgn)
+
+
+def rand_leaf(rng, w, sgn=False):
+    r = rng.random()
+    if r < 0.08:
+        u = 0
+    elif r < 0.16:
+        u = (1 << w) - 1
+    elif r < 0.22:
+        u = 1 << (w - 1) if w else 0
+    else:
+        u = rng.getrandbits(w) if w else 0
+    return to_leaf(u, w, sgn)
+
+
+def rand_shape_spec(rng, depth=0, wide=64, arrays=True):
+    """A random shape (scalar, signed, array or nested struct) for an extra field."""
+    r = rng.random()
+    if not arrays and 0.70 <= r < 0.80:
+        r = rng.random() * 0.70
+    if r < 0.30:
+        return rng.choice([1, 1, 2, 3, 5, 8])
+    if r < 0.50:
+        return rng.choice([17, 24, 31, 32, 33, 48, wide])
+    if r < 0.70:
+        return ["s", rng.choice([1, 2, 7, 8, 13, 32, 40])]
+    if r < 0.80:
+        return ["a", rng.choice([1, 4, 9, ["s", 6]]), rng.randint(1, 3)]
+    if depth < 2:
+        return [[f"m{k}", rand_shape_spec(rng, depth + 1, wide, arrays)] for k in range(rng.randint(1, 3))]
+    return rng.choice([1, 4, 16])
+
+
+def rand_layout_spec(rng, rich, first="tag", tag_widths=(10, 12, 16), arrays=True):
+    """Layout spec whose first leaf (the tag) is at least 10 bits wide.  rich=False: the narrow 1-2 field layouts
+    the checks always used; rich=True: wide / signed / 1-bit / 3-4 field / nested / array layouts."""
+    if not rich:
+        spec = [[first, rng.choice(list(tag_widths))]]
+        if rng.random() < 0.4:
+            spec.append(["aux", rng.choice([1, 3, 8])])
+        return spec
+    r = rng.random()
+    if r < 0.45:
+        tag = rng.choice([10, 16, 24, 32, 33, 48, 64])
+    elif r < 0.65:
+        tag = ["s", rng.choice([10, 12, 16, 32, 40])]
+    elif r < 0.85:
+        tag = [["t", rng.choice([12, 20, 32, ["s", 14]])], ["u", rand_shape_spec(rng, 1, arrays=arrays)]]
+    else:
+        tag = rng.choice(list(tag_widths))
+    spec = [[first, tag]]
+    for k in range(rng.choice([0, 1, 1, 2, 3])):
+        spec.append([f"f{k}", rand_shape_spec(rng, arrays=arrays)])
+    return spec
